@@ -99,3 +99,27 @@ Proof.
     + cbn [In]; intros [H|H]; [discriminate|exact H].
 Qed.
 End NI.
+
+Lemma server_choice_noninterference_all :
+  forall rnd master_of unprotect verify_data finished_body,
+  (forall dec1 dec2 cv sv tb cke epms later,
+     wellformed_premaster cv sv (dec1 epms) = false ->
+     wellformed_premaster cv sv (dec2 epms) = false ->
+     server_after_cke dec1 rnd master_of unprotect verify_data finished_body cv sv tb cke epms later =
+     server_after_cke dec2 rnd master_of unprotect verify_data finished_body cv sv tb cke epms later) /\
+  (forall dec cv sv tb cke1 epms1 cke2 epms2 fin rest,
+     wellformed_premaster cv sv (dec epms1) = false ->
+     wellformed_premaster cv sv (dec epms2) = false ->
+     unprotect (master_of (rnd 48) (tb ++ cke1)) fin = None ->
+     unprotect (master_of (rnd 48) (tb ++ cke2)) fin = None ->
+     let run cke epms := server_after_cke dec rnd master_of unprotect verify_data finished_body
+                           cv sv tb cke epms (RecCCS :: RecProtected fin :: rest) in
+     run cke1 epms1 = run cke2 epms2 /\ run cke1 epms1 = [SendAlert 2 bad_record_mac]) /\
+  (forall dec cv sv tb cke epms later e,
+     ~ In (Crash e) (server_after_cke dec rnd master_of unprotect verify_data finished_body cv sv tb cke epms later)).
+Proof.
+  intros rnd master_of unprotect verify_data finished_body. split; [|split].
+  - exact (ni_in_secret rnd master_of unprotect verify_data finished_body).
+  - exact (ni_two_messages rnd master_of unprotect verify_data finished_body).
+  - exact (server_no_crash rnd master_of unprotect verify_data finished_body).
+Qed.
